@@ -291,13 +291,17 @@ class Melody(events_lib.SimpleEventSequence):
         quantized_sequence.quantization_info.steps_per_quarter)
 
     # Sort track by note start times, and secondarily by pitch descending.
+    # Notes of one pitch quantized onto the same start step are ordered by
+    # their unquantized start time, so that the note kept does not depend on
+    # the order in which the notes are stored.
     # Drum notes (if filtered) and zero-velocity notes are not melody notes and
     # must not determine the bar the melody starts in.
     notes = sorted([n for n in quantized_sequence.notes
                     if n.instrument == instrument and
                     n.quantized_start_step >= search_start_step and
                     not (filter_drums and n.is_drum) and n.velocity],
-                   key=lambda note: (note.quantized_start_step, -note.pitch))
+                   key=lambda note: (note.quantized_start_step, -note.pitch,
+                                     note.start_time))
 
     if not notes:
       return
